@@ -3,8 +3,15 @@
 //! note: blinded_path::payment::compute_aggregated_base_prop_fee: the aggregated (base, proportional) fee of a sequence of hops is never below the fee those hops charge when composed hop by hop with compute_fees' rounding (any number of hops)
 //! trusted: R5: the generic `I: DoubleEndedIterator<Item = RoutingFees>` parameter is instantiated as a slice of RoutingFees; R6: `for fees in hops_fees.rev()` rewritten into an index loop from the last element to the first (definition of rev() on a double-ended iterator), body verbatim
 //! plemma: C16 lemma_aggregate_covers_composition: need(hops, 0, v) <= v + B + floor(v*P/1e6) for the aggregated (B, P): a payer (or the router's bottleneck computation, unit u16b) that adds the aggregated fee covers every hop's own fee
+//! trusted: assume_specification for core::cmp::max / core::cmp::min (std definitions): present in every unit so that a change that introduces them is verified instead of being rejected by the tool
 use vstd::prelude::*;
 verus! {
+use vstd::std_specs::cmp::*;
+use core::cmp;
+pub assume_specification<T: core::cmp::Ord>[core::cmp::max::<T>](a: T, b: T) -> (r: T)
+    ensures T::obeys_cmp_spec() ==> r == (if b.cmp_spec(&a) == core::cmp::Ordering::Less { a } else { b });
+pub assume_specification<T: core::cmp::Ord>[core::cmp::min::<T>](a: T, b: T) -> (r: T)
+    ensures T::obeys_cmp_spec() ==> r == (if b.cmp_spec(&a) == core::cmp::Ordering::Less { b } else { a });
 //@extract lightning-types/src/routing.rs :: struct RoutingFees
 //@derive Clone Copy
 //@end
